@@ -54,7 +54,9 @@ func serverTxnStream(r *Run, prop string, nHist int) {
 				cs := map[string]interface{}{"model": ts.modelJSON(), "txns": txns}
 				before := rig.im.dump()
 				cacheBefore := dumpCanon(projectDump(ts.Spec, cacheDump(mon, mdb, tablesOf(cols)), cols))
+				r.InFlight("server", cs, "the server crashed while executing a transaction")
 				res, err := writer.Transact(ctx, toOvsOps(txn.Ops)...)
+				r.Landed()
 				if err != nil {
 					// rejected by the client-side validation or the connection: nothing may have changed
 					res = []ovsdb.OperationResult{{Error: err.Error()}}
